@@ -68,7 +68,7 @@ let () =
       | _ -> print_endline "?"
     end else begin
       (match toks with
-       | ["case"; l; n; o; g; b; s; t0; tz] ->
+       | "case" :: l :: n :: o :: g :: b :: s :: t0 :: tz :: _ ->      (* further fields (codec, quiet) concern the harness only *)
          cfg := mkcfg (int_of_string l) (int_of_string n) (int_of_string o) (int_of_string g) b s (int_of_string tz);
          w := w0 !cfg (z_of_int (int_of_string t0))
        | ["w"; p] -> w := step src_shape !cfg !w (Write (unhex p))
